@@ -6,18 +6,50 @@ From Koala Require Import Gen.TilingGen Model.Lattice Model.Tiling Model.Example
 Import ListNotations.
 Open Scope Z_scope.
 
-(* the nested closures are the same function as _next_cell_number (the generated bodies coincide;
-   this breaks, as it should, when one of the Python definitions is edited) *)
+(* the nested closures are the same function as _next_cell_number (the generated bodies coincide, or are
+   equal after normalising mod-of-sums; this breaks, as it should, when one of the Python definitions is
+   edited to compute something else) *)
+Ltac closure_eq :=
+  first [ reflexivity
+        | unfold honeycomb_next_direction, hso_next_direction, py_next_cell_number; cbn [fst snd]; cbv zeta;
+          mod_norm; first [ reflexivity | lia | ring ] ].
 Lemma honeycomb_next_direction_eq n nv c s : honeycomb_next_direction n nv c s = py_next_cell_number n nv c s.
-Proof. reflexivity. Qed.
+Proof. closure_eq. Qed.
 Lemma hso_next_direction_eq n c s : hso_next_direction n c s = py_next_cell_number n n c s.
-Proof. reflexivity. Qed.
+Proof. closure_eq. Qed.
+
+Lemma cell_bij_ext N (f g i : Z -> Z) : (forall c, f c = g c) -> cell_bij N g i -> cell_bij N f i.
+Proof.
+  intros E (H1 & H2 & H3). split; [|split].
+  - intros c Hc. rewrite E. now apply H1.
+  - exact H2.
+  - intros c m Hc Hm. rewrite E. now apply H3.
+Qed.
 
 Lemma honeycomb_nv_pos n : 1 <= n -> 1 <= honeycomb_nv n.
 Proof.
   intros Hn. unfold honeycomb_nv.
   assert (3 <= Z.sqrt (12 * n * n)) by (apply Z.sqrt_le_square; nia).
   apply Z.div_le_lower_bound; lia.
+Qed.
+
+
+(* n_vertical = round(n / sqrt 3): honeycomb_nv n is the integer v with |v - n/sqrt3| <= 1/2, i.e.
+   3 (2v-1)^2 <= 4 n^2 < 3 (2v+1)^2  (equality on the left is impossible, sqrt 3 being irrational: not proved) *)
+Lemma honeycomb_nv_nearest n : 1 <= n ->
+  let v := honeycomb_nv n in 3 * (2 * v - 1) * (2 * v - 1) <= 4 * n * n < 3 * (2 * v + 1) * (2 * v + 1).
+Proof.
+  intros Hn. cbv zeta. unfold honeycomb_nv.
+  pose proof (Z.sqrt_spec (12 * n * n) ltac:(nia)) as Hs.
+  set (s := Z.sqrt (12 * n * n)) in *.
+  assert (0 <= s) by (apply Z.sqrt_nonneg).
+  pose proof (Z.div_mod (s + 3) 6 ltac:(lia)) as Hd. pose proof (Z.mod_pos_bound (s + 3) 6 ltac:(lia)) as Hm.
+  set (v := (s + 3) / 6) in *.
+  assert (6 * v - 3 <= s <= 6 * v + 2) by lia.
+  assert (3 <= s) by (apply Z.sqrt_le_square; nia).
+  assert ((6 * v - 3) * (6 * v - 3) <= s * s) by nia.
+  assert ((s + 1) * (s + 1) <= (6 * v + 3) * (6 * v + 3)) by nia.
+  cbv zeta in Hs. clearbody v. clearbody s. split; lia.
 Qed.
 
 (* ------------------------------------------------------------------ blocks of edges laid out per cell *)
@@ -78,7 +110,10 @@ Section Honeycomb.
   Let bij_id : cell_bij N (fun c => c) (fun c => c). Proof. apply cell_bij_id. Qed.
   Let bij_next s : cell_bij N (fun c => honeycomb_next_direction n nv c s)
                             (fun c => py_next_cell_number n nv c (- fst s, - snd s)).
-  Proof. unfold N. rewrite Z.mul_comm. apply next_cell_bij; lia. Qed.
+  Proof.
+    apply cell_bij_ext with (g := fun c => py_next_cell_number n nv c s); [intros; apply honeycomb_next_direction_eq|].
+    unfold N. rewrite Z.mul_comm. apply next_cell_bij; lia.
+  Qed.
 
   (* the six kinds of edges, per cell *)
   Let e1 c := (0 + 4 * c, 1 + 4 * c).
@@ -210,7 +245,10 @@ Section HSO.
   Let bij_id : cell_bij N (fun c => c) (fun c => c). Proof. apply cell_bij_id. Qed.
   Let bij_next s : cell_bij N (fun c => hso_next_direction n c s)
                             (fun c => py_next_cell_number n n c (- fst s, - snd s)).
-  Proof. unfold N. apply next_cell_bij; lia. Qed.
+  Proof.
+    apply cell_bij_ext with (g := fun c => py_next_cell_number n n c s); [intros; apply hso_next_direction_eq|].
+    unfold N. apply next_cell_bij; lia.
+  Qed.
 
   Lemma hso_internal_deg m r : 0 <= m < N -> 0 <= r < 6 ->
     deg (flat_map (fun c => [(0 + 6 * c, 1 + 6 * c); (1 + 6 * c, 2 + 6 * c); (2 + 6 * c, 3 + 6 * c);
@@ -257,14 +295,18 @@ Section Square.
      (vertex c = i*ny + j, i = c / ny, j = c mod ny) *)
   Lemma square_prev_x c : 0 <= c < N ->
     ((c / ny - 1) mod nx) * ny + c mod ny = py_next_cell_number ny nx c (0, -1).
-  Proof. intros Hc. unfold py_next_cell_number. cbn [fst snd]. rewrite Z.add_0_r. reflexivity. Qed.
+  Proof.
+    intros Hc. pose proof (Z.mod_pos_bound c ny ltac:(lia)).
+    rewrite (Z.div_mod c ny) at 3 by lia. rewrite (Z.mul_comm ny (c / ny)).
+    rewrite next_cell_number_spec by lia. rewrite Z.add_0_r, (Z.mod_small (c mod ny) ny) by lia. reflexivity.
+  Qed.
   Lemma square_prev_y c : 0 <= c < N ->
     (c / ny) * ny + (c mod ny - 1) mod ny = py_next_cell_number ny nx c (-1, 0).
   Proof.
-    intros Hc. unfold py_next_cell_number. cbn [fst snd]. rewrite Z.add_0_r.
+    intros Hc. pose proof (Z.mod_pos_bound c ny ltac:(lia)).
     assert (0 <= c / ny < nx) by (split; [apply Z.div_pos; lia|apply Z.div_lt_upper_bound; unfold N in Hc; lia]).
-    rewrite (Z.mod_small (c / ny) nx) by lia. f_equal.
-    replace (c + -1) with (c - 1) by lia. now rewrite Zminus_mod_idemp_l.
+    rewrite (Z.div_mod c ny) at 3 by lia. rewrite (Z.mul_comm ny (c / ny)).
+    rewrite next_cell_number_spec by lia. rewrite Z.add_0_r, (Z.mod_small (c / ny) nx) by lia. reflexivity.
   Qed.
 
   Theorem square_degree v : 0 <= v < N -> zdegree (square_edges nx ny) v = 4.
